@@ -570,6 +570,28 @@ example : Clean 4 (.list (.map .text (.list .int))) (.slice (.map (.str false) (
           unfold NonNull; simp [marshal, marshalScalar, marshalIntColumn, optM, marshalIntKind])
       · exact .nilptr _ 0 _ rfl
 
+/-- TUPLE step (element theorems as hypotheses, `FieldsRT`): a struct bound to tuple<T1, …, Tn> whose i-th field has
+    type goType(Ti) — holding a value whose round trip holds — or *goType(Ti) — nil, or pointing to such a value that is
+    not written as null — is given back unchanged by Marshal followed by Unmarshal into the same struct type: every arity,
+    every protocol version; null (nil pointer), EMPTY and values keep their meanings.  Generalises
+    `C02_tuple_text_roundtrip` from text fields to every element type (fields of another documented type: KF-C02-4). -/
+theorem C02_tuple_struct_roundtrip (p : Nat) (ts : List CqlTy) (gs : List GoTy) (vs : List GoVal)
+    (h : FieldsRT p ts gs vs) :
+    ∀ ob, marshal p (.tuple ts) (.struct vs) = .ok ob → unmarshal p (.tuple ts) (.struct gs) ob = .ok (.struct vs) :=
+  rt_tuple_struct p ts gs vs h
+
+/-- non-vacuity: tuple<int, list<text>, text> ↔ struct { *int; []string; *string } = (pointer to 7, nil slice, nil) -/
+example : FieldsRT 4 [.int, .list .text, .text] [.ptr (.int .int false), .slice (.str false), .ptr (.str false)]
+    [.ptr (.int .int false 7), .slice true [], .nilptr] := by
+  refine .ptr (t := .int) ?_ ?_ ?_ (.val (t := .list .text) rfl rfl ?_ ?_ (.null (t := .text) (nullOK_scalar 4 .text rfl) .nil))
+  · exact C02_scalar_roundtrip 4 _ _ _ (.int (col := .int) rfl _ _ _ (by decide))
+  · unfold NonNull; simp [marshal, marshalScalar, marshalIntColumn, optM, marshalIntKind]
+  · intro b hb
+    simp [marshal, marshalScalar, marshalIntColumn, optM, marshalIntKind] at hb
+    subst hb; simp [encInt]
+  · exact C02_nested_roundtrip 4 _ _ _ (.nilSlice (Or.inl rfl) _)
+  · intro b hb; simp [marshal] at hb
+
 /-- FULL STATEMENT (does not hold): "… into any documented target type able to represent the value".  2^63 written by a
     bare uint64 into a varint column (00 80 00 00 00 00 00 00 00) decodes into *uint64 and *big.Int, but `*uint`, which
     can hold it, gets an error (KF-C12-12) and so does `*string` (KF-C02-5).
